@@ -153,7 +153,15 @@ theorem runCore_agree (p : Program) (a b : Bool) :
   | false =>
     simp only [Bool.false_eq_true, if_false]
     have ac := runCleanups_agree s1 t1 a1
-    exact ⟨((agreeFF_iff _ _).mp ac).2.2.2.2.2.2.2.2.1, fun hff => by rw [ac.eq hff]⟩
+    have hx : (runCleanups s1).execd = (runCleanups t1).execd := ((agreeFF_iff _ _).mp ac).2.2.2.2.2.2.2.2.1
+    constructor
+    · split <;> split <;> simp [hx]
+    · intro hff
+      have hff' : (runCleanups s1).ff = (runCleanups t1).ff := by
+        revert hff
+        split <;> split <;> simp_all
+      have := ac.eq hff'
+      rw [this]
   | true =>
     simp only [if_true]
     have r2 := runStage_agree p.body p.xfailDeco a1
